@@ -27,6 +27,8 @@ import (
 //	drop [of|k]       close that link
 //	hsdrop            close the next incoming connection during its handshake
 //	late i            wait until call i's deadline has passed
+//	outage [of|k] ms  close that link and refuse every connection attempt (close it during its handshake) for ms,
+//	                  counted from the client's first attempt; then accept again on the same address with the same key
 //	pause ms
 type Step struct {
 	A  string `json:"a"`
@@ -56,6 +58,8 @@ type Script struct {
 	// HoldTimeoutUs: callers are held this long at the ret.timeout hook (after the select, before unregisterCallback) and
 	// "late i" waits only until just after the deadline: the following "ans i" then finds the entry still registered
 	HoldTimeoutUs int `json:"hold_timeout_us"`
+	// QBytes: padding of every query body (large frames make the writes of concurrent senders overlap)
+	QBytes int `json:"q_bytes"`
 }
 
 type callRes struct {
@@ -117,12 +121,33 @@ func Drive(in string, index int, w *ev.Writer, seed int64, tracePath string) err
 	// ---------------------------------------------------------------- callers
 	var mu sync.Mutex
 	var results []callRes
+	inflight := map[int]time.Time{}
+	limit := timeout + time.Duration(slackMs())*time.Millisecond + time.Second
+	// outlived reports the calls that are still inside Request although deadline + slack (+1 s) has passed
+	outlived := func() []int {
+		mu.Lock()
+		defer mu.Unlock()
+		var late []int
+		for c, t0 := range inflight {
+			if time.Since(t0) > limit {
+				late = append(late, c)
+			}
+		}
+		sort.Ints(late)
+		return late
+	}
 	doCall := func(call int, followup bool) {
-		q := makeQ(call, uint32(splitmix(uint64(seed)^uint64(call))))
+		q := makeQ(call, uint32(splitmix(uint64(seed)^uint64(call))), sc.QBytes)
 		rec.emit(map[string]any{"k": "call", "i": call})
 		t0 := time.Now()
+		mu.Lock()
+		inflight[call] = t0
+		mu.Unlock()
 		b, err := client.Request(ctx, q)
 		d := time.Since(t0)
+		mu.Lock()
+		delete(inflight, call)
+		mu.Unlock()
 		m := map[string]any{"k": "return", "i": call, "res": "answer"}
 		if err != nil {
 			m["res"] = "err"
@@ -157,13 +182,32 @@ func Drive(in string, index int, w *ev.Writer, seed int64, tracePath string) err
 
 	// ---------------------------------------------------------------- the script
 	tScript := time.Now()
-	sv.run(sc, timeout)
+	scriptDone := make(chan struct{})
+	go func() { sv.run(sc, timeout); close(scriptDone) }()
+	callersDone := make(chan struct{})
+	go func() { wg.Wait(); close(callersDone) }()
+	// a call that does not return by its deadline (+slack) is reported, not waited for
 	hang := ""
-	if !waitTimeout(&wg, time.Duration(sc.BgCalls+1)*(timeout+time.Duration(slackMs())*time.Millisecond)+5*time.Second) {
-		// a caller is still inside Request long after its deadline: deadlock or lost wake-up
-		buf := make([]byte, 1<<20)
-		hang = string(buf[:runtime.Stack(buf, true)])
-		rec.emit(map[string]any{"k": "Hang"})
+	var hung []int
+	waitAll := func(done chan struct{}) bool {
+		tick := time.NewTicker(50 * time.Millisecond)
+		defer tick.Stop()
+		for {
+			select {
+			case <-done:
+				return true
+			case <-tick.C:
+				if hung = outlived(); len(hung) > 0 {
+					buf := make([]byte, 1<<20)
+					hang = string(buf[:runtime.Stack(buf, true)])
+					rec.emit(map[string]any{"k": "Hang", "i": hung[0]})
+					return false
+				}
+			}
+		}
+	}
+	if waitAll(scriptDone) {
+		waitAll(callersDone)
 	}
 	scriptMs := time.Since(tScript).Milliseconds()
 
@@ -179,8 +223,19 @@ func Drive(in string, index int, w *ev.Writer, seed int64, tracePath string) err
 		bound += silencePerio
 	}
 	tRec := time.Now()
-	recovered := sv.waitOpen(sc.NConns, bound)
+	outageBackMs := int64(-1)
+	sv.mu.Lock()
+	oEnd := sv.outageEnd
+	sv.mu.Unlock()
+	if !oEnd.IsZero() {
+		// the server is back since oEnd: the client retries every second
+		bound = time.Until(oEnd) + retrySleep + 2*time.Second + time.Duration(slackMs())*time.Millisecond
+	}
+	recovered := hang == "" && sv.waitOpen(sc.NConns, bound)
 	recoverMs := time.Since(tRec).Milliseconds()
+	if !oEnd.IsZero() && recovered {
+		outageBackMs = time.Since(oEnd).Milliseconds()
+	}
 	if recovered && traced {
 		// the server has acknowledged the handshake; the client installs the socket a moment later
 		recovered = rec.waitConnUps(sc.NConns, sv, 2*time.Second)
@@ -193,7 +248,11 @@ func Drive(in string, index int, w *ev.Writer, seed int64, tracePath string) err
 			fw.Add(1)
 			go func(call int) { defer fw.Done(); doCall(call, true) }(next)
 		}
-		fw.Wait()
+		fwDone := make(chan struct{})
+		go func() { fw.Wait(); close(fwDone) }()
+		if !waitAll(fwDone) {
+			break
+		}
 	}
 
 	// ---------------------------------------------------------------- quiescence
@@ -237,6 +296,9 @@ func Drive(in string, index int, w *ev.Writer, seed int64, tracePath string) err
 	}
 	res["answers"], res["errors"] = nAns, nErr
 	res["hang"] = hang != ""
+	res["hung_calls"] = ints(hung)
+	res["stream_corrupt"] = int(sv.nCorrupt.Load())
+	res["outage_back_ms"] = outageBackMs
 	if len(hang) > 6000 {
 		hang = hang[:6000]
 	}
@@ -374,6 +436,28 @@ func (sv *server) run(sc *Script, timeout time.Duration) {
 			sv.mu.Lock()
 			sv.hsdrops++
 			sv.mu.Unlock()
+		case "outage":
+			sv.mu.Lock()
+			sv.outageFor = time.Duration(st.Ms) * time.Millisecond
+			sv.mu.Unlock()
+			if l := resolve(st); l != nil {
+				sv.closeLink(l, true)
+			}
+			// wait until the client has started to reconnect (at most the two ping periods it needs to notice), then until the outage is over
+			deadline := time.Now().Add(2*pingPeriod + 3*time.Second)
+			for {
+				sv.mu.Lock()
+				end := sv.outageEnd
+				sv.mu.Unlock()
+				if !end.IsZero() {
+					time.Sleep(time.Until(end))
+					break
+				}
+				if time.Now().After(deadline) {
+					break
+				}
+				time.Sleep(20 * time.Millisecond)
+			}
 		case "late":
 			at := time.Now()
 			if a := sv.arrivalOf(st.I); a != nil {
